@@ -129,7 +129,7 @@ def rNodeIdx : NodeIdx → String
   | .unstaking t as => s!"unstaking/{t}/{"+".intercalate (as.map hx)}"
   | .waiting a => s!"waiting/{hx a}"
 def rParams (sub : String) (ps : List (String × String)) : String :=
-  joinS ((ps.filter fun e => subspaceOf e.1 = sub).map fun e => s!"{(e.1.drop (sub.length + 1)).toString}:{e.2}")
+  joinS ((ps.filter fun e => inSubspace e.1 sub).map fun e => s!"{(e.1.drop (sub.length + 1)).toString}:{e.2}")
 
 /-- a component of a ledger, rendered as the harness renders it -/
 def comp (l : L) (c : String) : String :=
